@@ -522,6 +522,51 @@ def run_channel(res, n, d, fc, sc, calls, nq, stats, label):
     return len(files), len(spec)
 
 
+def flatdict_leg(res):
+    """read_flatdict over samples with scalar fields of which some are present in some samples only (earlier but not
+    later ones, later but not earlier ones, nested ones): every column has one entry per sample, the sample's own value
+    where it has the field and NaN where it has not"""
+    import digital_rf
+    rng = res.rng
+    for trial in range(20 if res.tier == "quick" else 200):
+        top = common.scratch_dir()
+        w = digital_rf.DigitalMetadataWriter(top, 3600, 60, 100, 1, "md")
+        k0 = 150000000000 + rng.randrange(0, 10 ** 6)
+        nsamp = rng.randrange(2, 9)
+        ks = sorted(rng.sample(range(k0, k0 + 20000), nsamp))
+        rows = []
+        for i, k in enumerate(ks):
+            row = {"tag": i}
+            if rng.random() < 0.6:
+                row["gain"] = float(i) + 0.5
+            if rng.random() < 0.4:
+                row["nest"] = {"a": i * 10}
+            rows.append(row)
+        if rng.random() < 0.5:
+            w.write(ks, rows)
+        else:
+            for k, row in zip(ks, rows):
+                w.write(k, row)
+        rd = digital_rf.DigitalMetadataReader(top)
+        fd = rd.read_flatdict(ks[0], ks[-1])
+        res.case(("flatdict-leg", tuple(ks), tuple(sorted(r) != ["tag"] for r in rows)), nontrivial=True)
+        res.count("flatdict-leg")
+        want = {"index": list(ks), "tag": [r["tag"] for r in rows]}
+        if any("gain" in r for r in rows):
+            want["gain"] = [r.get("gain", float("nan")) for r in rows]
+        if any("nest" in r for r in rows):
+            want["nest/a"] = [r["nest"]["a"] if "nest" in r else float("nan") for r in rows]
+
+        def same(a, b):
+            return len(a) == len(b) and all((x != x and y != y) or x == y for x, y in zip([float(v) for v in a], [float(v) for v in b]))
+        ok = sorted(fd) == sorted(want) and all(same(fd[c], want[c]) for c in want)
+        if not ok:
+            res.violation("flatdict-columns-misaligned", "read_flatdict: a column does not have one entry per sample, or a value sits "
+                          "at another sample's position", {"flatdict_leg": {"indices": ks, "rows": rows}},
+                          {c: [None if v != v else v for v in want[c]] for c in want},
+                          {c: [None if (isinstance(v, float) and v != v) else (v.item() if hasattr(v, "item") else v) for v in list(fd[c])] for c in fd})
+
+
 def raise_stack_limit():
     """the extracted model recurses over candidate-file lists (one element per cadence slot, 86400 per
     day at 1 s cadence); child processes inherit the limit"""
@@ -602,6 +647,7 @@ def run(res):
     if vm != ex:
         res.disagree("extracted OCaml vs vm_compute", None, vm, ex)
     res.extra["traces_validated_against_impl"] = res.evaluations
+    flatdict_leg(res)
     res.assumptions += [
         "sample indices 0 <= k < 2^63 (np.uint64 / np.int64 conversions of indices are not modelled); no bound on k*d "
         "(Python integers in the code, Z in the model; rates with k*d >= 2^64 are generated on every run)",
@@ -618,6 +664,22 @@ def replay(res, rp):
     common.use_impl()
     import digital_rf
     i = rp["input"]
+    if "flatdict_leg" in i:
+        ks, rows = i["flatdict_leg"]["indices"], i["flatdict_leg"]["rows"]
+        top = common.scratch_dir()
+        digital_rf.DigitalMetadataWriter(top, 3600, 60, 100, 1, "md").write(ks, rows)
+        fd = digital_rf.DigitalMetadataReader(top).read_flatdict(ks[0], ks[-1])
+        bad = False
+        for c in sorted(fd):
+            print(" column %-8s %s" % (c, list(fd[c])))
+            bad |= len(fd[c]) != len(ks)
+        for j, r in enumerate(rows):
+            for c, v in (("gain", r.get("gain")), ("nest/a", (r.get("nest") or {}).get("a"))):
+                if c in fd and len(fd[c]) == len(ks):
+                    x = float(fd[c][j])
+                    bad |= (x == x) != (v is not None) or (v is not None and x != float(v))
+        print("REPRODUCED" if bad else "not reproduced")
+        return 1 if bad else 0
     n, d, fc, sc, calls = i["n"], i["d"], i["fc"], i["sc"], i["calls"]
     top = common.scratch_dir()
     at = i.get("arg_types") or ["int"] * 4
